@@ -613,7 +613,7 @@ def report_faults(o, origin, text, mode, faults, dump):
     faults = sorted(faults)
     case = {"origin": origin, "mode": mode, "text": text[:3000], "faults": faults,
             "tree": dump[:1500]}
-    why = f"tree returned by parse(..., {mode}) is not well-formed: {', '.join(faults)}"
+    why = f"tree returned by parse(..., {mode}) is not well-formed: {', '.join(faults)}" + _WF_NOTE.get(text, "")
     if capped(o, "wf:" + ",".join(faults)):
         return
     if all(f in FAULT_DEVIATION for f in faults):
@@ -841,6 +841,99 @@ def run_tagtok(o: Outcome, started):
     o.extra.setdefault("phase_seconds", {})["G:tagtok"] = round(time.time() - t0, 1)
 
 
+# ---------------------------------------------------------------------------
+# G'': the shape of the url part of an external link (round 9, spec/ExtUrl.tla + Gen_ExtUrl)
+# ---------------------------------------------------------------------------
+_WF_NOTE: dict = {}      # document text -> what the model says about it (appended to the "why" of a well-formedness fault)
+# atom -> [primary spelling, alternative spelling]
+EXT_SPELL = {"hHOST": ["http://x.org", "http://example.com"], "hPATH": ["https://x.org/p", "http://example.com/w/i.php"],
+             "hIP6": ["http://[::1]", "http://[2001:db8::1]"], "hREL": ["//x.org", "//example.com"],
+             "hMAIL": ["mailto:a@b.c", "mailto:x@example.com"],
+             "PORT": [":80", ":8080"], "SLASH": ["/", "/"], "QUERY": ["?q=1", "?title=Foo&a=b"], "FRAG": ["#f", "#top"],
+             "PCT": ["%20", "%5B%5D"], "AT": ["@u", "u:p@"], "DOT": [".", "."], "COMMA": [",", "!"], "AMP": ["&amp;", "&"],
+             "UNI": ["\u00e9", "\u65e5"], "TPL": ["{{t}}", "{{nosuch|x}}"], "ARG": ["{{{1}}}", "{{{1|d}}}"],
+             "NOWIKI": ["<nowiki/>", "<nowiki />"], "BRK": ["[1]", "[a]"]}
+EXT_CTX = {"cTOP": "see @ now", "cLI": "* i @ t", "cCELL": "{|\n| @ || c\n|}", "cTARG": "{{d|@}}"}
+EXT_LABEL = {"lNONE": "", "lTWO": " w v"}
+EXT_IN_TREE = {"<nowiki/>": "<nowiki />"}       # how an atom reads in the tree when it differs from the source
+
+
+def ext_text(doc, v):
+    return EXT_CTX[doc[0]].replace("@", "[" + "".join(EXT_SPELL[a][v] for a in doc[2:]) + EXT_LABEL[doc[1]] + "]")
+
+
+def ext_pred(items, v):
+    return [{"s": "".join(EXT_IN_TREE.get(EXT_SPELL[a][v], EXT_SPELL[a][v]) for a in it["s"])} if "s" in it else {"k": it["k"]}
+            for it in items]
+
+
+def url_nodes(t, out):
+    for lst in [t["children"]] + t["largs"] + [t.get("def", [])]:
+        for c in lst:
+            if "kind" in c:
+                if c["kind"] == "URL":
+                    out.append(c)
+                url_nodes(c, out)
+    return out
+
+
+def run_exturl(o: Outcome, tier):
+    t0 = time.time()
+    cfg = "Gen_ExtUrl_T.cfg" if tier == "thorough" else "Gen_ExtUrl_Q.cfg"
+    r = tlc("Gen_ExtUrl", cfg, workers=1, timeout=3000)
+    o.add_tlc(cfg + " (M: the merged first argument has no two adjacent strings, on every url part)", r)
+    cases = r.cases
+    r.out = ""
+    docs, of = [], []
+    nsp = 2 if tier == "thorough" else 1
+    for ci, c in enumerate(cases):
+        for v in range(nsp):
+            text = ext_text(c["doc"], v)
+            if v and text == docs[-1]:
+                continue
+            docs.append(text)
+            of.append((ci, v))
+            _WF_NOTE[text] = ("; spec/ExtUrl.tla (url part %s): the pieces collected for the url part of an external link are merged "
+                              "before they become the first argument of the URL node - predicted largs[0] = %s; the statement's "
+                              "clauses (no two adjacent strings, no placeholder character) apply inside argument fields too"
+                              % (" ".join(c["doc"][2:]), json.dumps(ext_pred(c["arg1"], v), ensure_ascii=False)))
+    models = check_batch(o, docs, "G:exturl", want_model=frozenset(range(len(docs))))
+    stats = {"cases": len(cases), "documents": len(docs), "arg1_compared": 0, "arg1_differs": 0, "by_head": {}, "multi_piece_url_parts": 0}
+    for did, (ci, v) in enumerate(of):
+        c = cases[ci]
+        stats["by_head"][c["doc"][2]] = stats["by_head"].get(c["doc"][2], 0) + 1
+        real = models.get(did)
+        if real is None:
+            continue
+        if c["doc"][1] == "lNONE" and c["doc"][-1] == "BRK":
+            # "[1]]": the spelling runs the inner and the closing bracket together ("]]" is a token of its own)
+            stats["not_compared_spelling_adjacency"] = stats.get("not_compared_spelling_adjacency", 0) + 1
+            continue
+        urls = url_nodes(real, [])
+        stats["arg1_compared"] += 1
+        if c["link"]:
+            want = ext_pred(c["arg1"], v)
+            got = [[({"s": x["s"]} if "s" in x else {"k": x["kind"]}) for x in a] for u in urls for a in u["largs"][:1]]
+            same = len(urls) == 1 and len(urls[0]["largs"]) == c["nargs"] and got == [want]
+        else:
+            want, got, same = "no URL node", [u["largs"] for u in urls], not urls
+        if not same:
+            stats["arg1_differs"] += 1
+            if stats["arg1_differs"] <= int(__import__("os").environ.get("C01_EXT_DRIFT_CAP", "40")):
+                o.note_drift({"exturl_doc": c["doc"], "text": docs[did], "predicted_first_argument": want, "real_first_argument": got})
+    multi = [c for c in cases if len(c["doc"]) > 3]
+    stats["multi_piece_url_parts"] = len(multi)
+    if multi:
+        mid = multi[len(multi) // 2]
+        o.sample({"exturl_doc": mid["doc"], "text": ext_text(mid["doc"], 0), "predicted_first_argument": ext_pred(mid["arg1"], 0)})
+    o.extra["exturl_universe"] = stats
+    o.extra.setdefault("phase_seconds", {})["G:exturl"] = round(time.time() - t0, 1)
+    rd = tlc("Gen_ExtUrl", "Demo_ExtUrl_nomerge.cfg", workers=1, check=False)
+    if "DemoOK" not in rd.invariant_violated:
+        raise common.TLCError("Demo_ExtUrl_nomerge.cfg did not produce the expected counterexample")
+    o.extra.setdefault("demos", {})["Demo_ExtUrl_nomerge.cfg"] = "counterexample found by TLC without the merge step before the label"
+
+
 def run_demos(o: Outcome):
     for cfg, inv in (("Demo_Parser_heading.cfg", "AsIsWellFormed"), ("Demo_Parser_preflag.cfg", "AsIsFlagsClean"),
                      ("Demo_Parser_taglaw.cfg", "DemoTagLaw")):
@@ -872,6 +965,7 @@ def run(tier: str) -> int:
     run_g(o, [f"Gen_Parser_{pre}{u}.cfg" for u in ("core", "table", "block", "html", "inline", "pre") + nest],
           n_alt=1 if tier == "thorough" else 2, stream=(tier == "thorough"))
     run_tagtok(o, tagtok)
+    run_exturl(o, tier)
     o.exhaustive = True
     run_demos(o)
     rng = random.Random(common.seed() * 15485863 + 1)
